@@ -150,13 +150,14 @@ def sgetline (l : Bytes) : Option (Bytes × Bytes) :=
   let n := findeol l
   if n < l.length then some (l.take n, l.drop (n + 2)) else none
 
-/-- the line-counting loop of `gotheaders` -/
-def countLines (l : Bytes) (n : Nat) : Nat :=
-  match l with
-  | [] => n
-  | a :: t => countLines ((a :: t).drop (findeol (a :: t) + 2)) (n + 1)
-termination_by l.length
-decreasing_by simp [List.length_drop]; omega
+/-- the line-counting loop of `gotheaders`, with explicit fuel (every iteration advances by at least
+    two bytes, so `l.length` iterations are more than enough: `Proofs.Http.countLines_cons`) -/
+def countLinesF : Nat → Bytes → Nat → Nat
+  | 0, _, n => n
+  | _ + 1, [], n => n
+  | f + 1, a :: t, n => countLinesF f ((a :: t).drop (findeol (a :: t) + 2)) (n + 1)
+
+def countLines (l : Bytes) (n : Nat) : Nat := countLinesF l.length l n
 
 /-! ## header lines -/
 
@@ -226,8 +227,10 @@ structure St where
   readlen : Nat := 0
   /-- `res_bodylen_alloc` -/
   alloc : Nat := 0
-  /-- `res.body[0 .. res.bodylen)` -/
-  body : Bytes := []
+  /-- `res.bodylen` -/
+  bodylen : Nat := 0
+  /-- `res.body[0 .. res.bodylen)`, last byte first (so that appending a piece costs its length) -/
+  bodyRev : Bytes := []
 
 structure Resp where
   status : Int
@@ -241,7 +244,7 @@ inductive Micro where
   | done (r : Option Resp)
   | abort (why : String)
 
-def mkResp (st : St) : Resp := { status := st.status, headers := st.headers, body := some st.body }
+def mkResp (st : St) : Resp := { status := st.status, headers := st.headers, body := some st.bodyRev.reverse }
 
 /-- `toobig` -/
 def tooBig (st : St) : Micro := .done (some { status := st.status, headers := st.headers, body := none })
@@ -254,10 +257,10 @@ def growAlloc (alloc need max : Nat) : Nat :=
 
 /-- `addbody`; `none` = its assertion fails or the copy does not fit the allocation -/
 def addbody (st : St) (piece : Bytes) : Option St :=
-  let need := st.body.length + piece.length
+  let need := st.bodylen + piece.length
   if need ≤ st.max then
     let alloc' := if need > st.alloc then growAlloc st.alloc need st.max else st.alloc
-    if need ≤ alloc' then some { st with alloc := alloc', body := st.body ++ piece } else none
+    if need ≤ alloc' then some { st with alloc := alloc', bodylen := need, bodyRev := piece.reverse ++ st.bodyRev } else none
   else none
 
 /-! ## handlers -/
@@ -317,8 +320,8 @@ def chunkedHeader (st : St) (s : Status) (buf : Bytes) : Micro :=
     | some clen =>
       if eol + 2 > buf.length then .abort "netbuf_read_consume" else
       if clen == 0 then .done (some (mkResp st)) else
-      if st.body.length > st.max then .abort "size_t underflow" else
-      if clen > st.max - st.body.length then tooBig st else
+      if st.bodylen > st.max then .abort "size_t underflow" else
+      if clen > st.max - st.bodylen then tooBig st else
       if clen > SIZE_MAX - 2 then tooBig st else
       .goto { st with readlen := clen + 2 } (eol + 2) .readData
   else if buf.length ≥ MAXCHLEN then .done none
@@ -350,8 +353,8 @@ def readToEof (st : St) (s : Status) (buf : Bytes) : Micro :=
   | .err => .done none
   | .eof => .done (some (mkResp st))
   | .ok =>
-    if st.body.length > st.max then .abort "size_t underflow" else
-    if buf.length > st.max - st.body.length then tooBig st else
+    if st.bodylen > st.max then .abort "size_t underflow" else
+    if buf.length > st.max - st.bodylen then tooBig st else
     match addbody st buf with
     | none => .abort "addbody"
     | some st1 => .wait st1 buf.length 1 .readToEof
